@@ -760,6 +760,11 @@ pub fn write_val(v: &Val, data: &[u8], w: &mut Writer) -> io::Result<usize> {
         Val::Addr(a) => imp::mk_addr2(a).write_to(w),
         // an owned TLV (Cow::Owned, as `to_owned()` gives) when the value length is odd, a borrowed one otherwise
         Val::Tlv { kind, .. } if data.len() % 2 == 1 => TypeLengthValue::new(*kind, data).to_owned().write_to(w),
+        // ... made with `From<(kind, bytes)>` / `.into()` instead of `new` when the length is a multiple of four
+        Val::Tlv { kind, .. } if data.len() % 4 == 0 => {
+            let t: TypeLengthValue = (*kind, data).into();
+            t.write_to(w)
+        }
         Val::Tlv { kind, .. } => TypeLengthValue::new(*kind, data).write_to(w),
         Val::TupleU8 { kind, .. } => (*kind, data).write_to(w),
         Val::TupleType { ty, .. } => (TYPES[*ty], data).write_to(w),
@@ -785,6 +790,7 @@ pub fn to_bytes_val(v: &Val, data: &[u8]) -> io::Result<Vec<u8>> {
         Val::Bytes { .. } => data.to_bytes(),
         Val::Addr(a) => imp::mk_addr2(a).to_bytes(),
         Val::Tlv { kind, .. } if data.len() % 2 == 1 => TypeLengthValue::new(*kind, data).to_owned().to_bytes(),
+        Val::Tlv { kind, .. } if data.len() % 4 == 0 => TypeLengthValue::from((*kind, data)).to_bytes(),
         Val::Tlv { kind, .. } => TypeLengthValue::new(*kind, data).to_bytes(),
         Val::TupleU8 { kind, .. } => (*kind, data).to_bytes(),
         Val::TupleType { ty, .. } => (TYPES[*ty], data).to_bytes(),
